@@ -28,7 +28,8 @@ from fractions import Fraction
 
 from vf import gen, refsem
 from vf.c11_lib import (
-    BIGPOW_NC_MAX, NotInFragment, bigpow, box_for, expand_nf, flatten_nf, fold_nf, history_pool,
+    BIGPOW_NC_MAX, NotInFragment, bigpow, box_for, expand_nf, flatten_nf, float_trees, fold_nf,
+    history_pool,
     in_collector_fragment, is_closed, is_polynomial, is_rational, max_exponent, nc_eval,
     param_inputs, poly4, rename, rf_chain4, rf_depth2, rf_depth3, rf_value, xeval,
 )
@@ -361,6 +362,7 @@ def judge_nc(rw, spec):
 
 
 JUDGES = {"rf": (judge_rf, RF_REWRITERS), "rfp": (judge_rf, RFP_REWRITERS),
+          "rfc": (judge_rf, FA_REWRITERS),
           "fa": (judge_fa, FA_REWRITERS), "nc": (judge_nc, NC_REWRITERS)}
 
 
@@ -376,14 +378,29 @@ def rewritable_kernels():
     ]
 
 
-def fa_around_kernels(parents):
-    """Every (parent, expression position) with each rewritable kernel in that position."""
+def collapsing_kernels():
+    """Operands that a rewriter turns into one of the boundary constants 0 and 1 (the values the
+    smart constructors / operators treat specially)."""
+    x = V("x")
+    return [
+        ("Product", T(C(0), x)),        # -> 0 (flatten, commutative folder)
+        ("Sum", T(C(0), C(0))),         # -> 0 (all three)
+        ("Sum", T(C(1), C(-1))),        # -> 0 (folders)
+        ("Product", T(C(1), C(1))),     # -> 1 (flatten, commutative folder)
+        ("Sum", T(C(2), C(-1))),        # -> 1 (folders)
+    ]
+
+
+def fa_around_kernels(parents, kernels=None, sibling_start=2):
+    """Every (parent, expression position) with each rewritable kernel in that position; the
+    parent's other slots hold the default leaves from *sibling_start* on (2: z, 2, 3; 1: y, z, 2
+    -- variable siblings)."""
     for pc in parents:
         for pos, kind in enumerate(pc.slots):
             if kind not in ("e", "b"):
                 continue
-            for k in rewritable_kernels():
-                ch = gen.fill_slots(pc, None, 2)
+            for k in (kernels or rewritable_kernels()):
+                ch = gen.fill_slots(pc, None, sibling_start)
                 ch[pos] = k
                 yield pc(*ch)
 
@@ -481,7 +498,10 @@ class C11(Check):
             "power (operands that only become a sum/product after being rewritten; nested "
             "sums/products beneath a non-sum/product operand) plus deeper polynomial inputs "
             "(products / powers / "
-            "differences of sums) plus literal powers 4..9 (thorough 4..13) of four small sums, "
+            "differences of sums) plus literal powers 4..9 "
+            "(thorough 4..13) of four small sums and every power 10..40 (thorough ..66) of x+1, "
+            "sums/products with float literals of boundary magnitude (2**-60, 2**-20, thorough "
+            "also 2**30 and denormals) on which float arithmetic is exact (rf-floats), "
             "and (rf-params) sums of monomials written with explicit power factors of both "
             "variables, "
             "their squares and products with a binomial, x TermCollector and distribute under "
@@ -490,7 +510,9 @@ class C11(Check):
             "CommutativeConstantFolding, TermCollector with parameters {} and {y}, expand, "
             "distribute with parameters {y}, distribute non-commutative); fa: flatten and both "
             "folders on every evaluable constructor shape with every leaf combination, every "
-            "(parent, position) and (grandparent, position, parent, position) [grandparents: quick "
+            "(parent, position) with variable siblings around five operands that collapse to the "
+            "boundary constants 0 / 1 (fa-collapse), every (parent, position) and (grandparent, "
+            "position, parent, position) [grandparents: quick "
             "Sum2/Product2, thorough 25 shapes] around four rewritable kernels, every child "
             "type under a sum/product, sums/products with typed neutral elements, composite "
             "closed operands; nc: flatten and the plain folder on sums/products of non-commuting "
@@ -509,7 +531,10 @@ class C11(Check):
         "value equality in the rational fragment is identity of rational functions (RatFun, "
         "cross-multiplication) AND definedness+equality on the Fraction box wherever the input is "
         "defined; float constants in outputs (the folders evaluate int/int with Python's true "
-        "division) are read as the unique rational with denominator <= 4096 next to them",
+        "division) are read as the unique rational with denominator <= 4096 next to them, "
+        "unless they are dyadics with a mantissa of <= 32 bits (deliberate constants, exact); the "
+        "rf-floats family only contains trees on which every combination of the constants by "
+        "+ and * is exact in double arithmetic (rounding is not the subject)",
         "TermCollector's fragment is its documented precondition: every summand of every sum is "
         "a product, a power, a quotient, a leaf or variable-free; on other inputs a RuntimeError "
         "is accepted, "
@@ -541,11 +566,14 @@ class C11(Check):
             ("rf-chain4", lambda: (("rf", s) for s in rf_chain4(tier))),
             ("rf-poly4", lambda: (("rf", s) for s in poly4(tier))),
             ("rf-bigpow", lambda: (("rf", s) for s in bigpow(tier))),
+            ("rf-floats", lambda: float_trees(tier)),
             ("rf-params", lambda: (("rfp", s) for s in param_inputs(tier))),
             ("rf-history", lambda: self.gen_history(tier)),
             ("fa-depth2", lambda: (("fa", s) for s in gen.depth2(EVAL_CTORS, lv))),
             ("fa-kernels", lambda: (("fa", s) for s in
                                     fa_around_kernels(EVAL_CTORS + SYMBOLIC_PARENTS))),
+            ("fa-collapse", lambda: (("fa", s) for s in fa_around_kernels(
+                EVAL_CTORS, collapsing_kernels(), 1))),
             ("fa-children", lambda: (("fa", s) for _, s in gen.nest2(SP_CTORS, EVAL_CTORS))),
             ("fa-sp-trees", lambda: (("fa", s) for s in
                                      fa_sp_trees(lv[:7], FA_SP_TERNARY_EXTRA[tier]))),
